@@ -16,7 +16,9 @@ MANIFEST = dict(
           "page size 4096; little-endian branch of the scans"),
     technique="Lean 4 proof over executable model + differential correspondence (C harness vs compiled Lean driver) + bitmap/index/live-set oracle")
 MODULE = "IwModel.Props.C11"
-THEOREMS = []
+THEOREMS = ["IwModel.C11." + n for n in (
+    "inv_open", "inv_step", "inv_reachable", "index_eq_runs", "coalesced", "index_determined_by_bitmap",
+    "reopen_same", "load_exact", "free_all")]
 
 # F1 witness (DESIGN.md section 7, probe p2): eight 4-block regions, free 1,3,5, consume the free tail exactly,
 # free 0,4,6, then ask for 8 and 16 blocks
